@@ -245,6 +245,8 @@ pub struct CountCut<S> {
     pub log: Arc<Log<S>>,
     /// optional scheduling yield point
     pub yield_hook: Option<Arc<dyn Fn() + Send + Sync>>,
+    /// event trigger: once set (by the scheduler, on the n-th occurrence of a chosen event) every poll answers stop
+    pub trigger: Option<Arc<AtomicBool>>,
 }
 impl<S> CountCut<S> {
     pub fn new(fire_at: Option<usize>, budget: usize, log: Arc<Log<S>>) -> Self {
@@ -257,6 +259,7 @@ impl<S> CountCut<S> {
             force_stop: AtomicBool::new(false),
             log,
             yield_hook: None,
+            trigger: None,
         }
     }
     pub fn nb_polls(&self) -> usize {
@@ -280,6 +283,12 @@ impl<S> Cutoff for CountCut<S> {
         }
         if self.force_stop.load(AO::SeqCst) {
             ret = true;
+        }
+        if let Some(t) = &self.trigger {
+            if t.load(AO::SeqCst) {
+                self.fired.store(true, AO::SeqCst);
+                ret = true;
+            }
         }
         self.log.push(|| Ev::Poll { idx, ret });
         ret
